@@ -47,6 +47,9 @@ fn grammars() -> Vec<(&'static str, Option<&'static str>, bool)> {
         ("G6", Some("@export Root = 'ab' x:X ;\nX = 'b' | 'c' ;\n"), true),
         // multi-byte characters end up in the generated code (byte length != character count)
         ("G7", Some("@export Root = 'jó' x:X ;\nX = 'ü' | 'c' | '香' ;\n"), true),
+        // not UTF-8 on disk: every U+E000 below is written as the single byte 0xFF (inside a comment and a literal,
+        // where any character is allowed): the file cannot be read as text, so the run must fail
+        ("Gbadutf8", Some("@export Root = 'a' x:X ; # caf\u{e000}\nX = 'b\u{e000}' | 'c' ;\n"), false),
     ]
 }
 
@@ -228,7 +231,16 @@ impl World {
         std::fs::create_dir_all(self.dir.join("out")).unwrap();
         for f in 0..self.nfiles() {
             if let Some(t) = self.gs[s.g[f]].1 {
-                std::fs::write(self.src(f), t).unwrap();
+                let mut bytes: Vec<u8> = Vec::new();
+                for c in t.chars() {
+                    if c == '\u{e000}' {
+                        bytes.push(0xFF);
+                    } else {
+                        let mut b = [0u8; 4];
+                        bytes.extend_from_slice(c.encode_utf8(&mut b).as_bytes());
+                    }
+                }
+                std::fs::write(self.src(f), bytes).unwrap();
             }
             if let Some(c) = s.dest[f] {
                 std::fs::write(self.dst(f), &self.contents.table[c]).unwrap();
@@ -279,11 +291,11 @@ pub fn explore(mode: Mode, tier: Tier, st: &mut Stats, replay: Option<&[Op]>) ->
     // menus: directory mode and format mode use smaller menus in the quick tier
     let gmenu: Vec<usize> = match (mode, tier) {
         (Mode::Directory, Tier::Quick) => vec![1, 3, 5, 7],
-        (Mode::Directory, Tier::Thorough) => vec![0, 1, 2, 3, 4, 5, 6, 7],
+        (Mode::Directory, Tier::Thorough) => vec![0, 1, 2, 3, 4, 5, 6, 7, 8],
         (Mode::FileExplicitFormat, Tier::Quick) => vec![1, 3, 5, 6, 7],
         (Mode::DirectoryFormat, Tier::Quick) => vec![1, 3, 7],
-        (Mode::DirectoryFormat, Tier::Thorough) => vec![0, 1, 3, 4, 5, 7],
-        _ => vec![0, 1, 2, 3, 4, 5, 6, 7],
+        (Mode::DirectoryFormat, Tier::Thorough) => vec![0, 1, 3, 4, 5, 7, 8],
+        _ => vec![0, 1, 2, 3, 4, 5, 6, 7, 8],
     };
     let pmenu: Vec<usize> = match (mode, tier) {
         (Mode::Directory, Tier::Quick) => vec![0, 1, 4],
